@@ -714,8 +714,19 @@ impl Driver {
                 let pools: [&'static [&'static str]; 5] = [SPACES, SPACES, ASTRAL, CLUSTERS, META];
                 let mut letters = letters_from(&mut rng, &pools, 4);
                 letters.extend(letters_from(&mut rng, &[PLAIN], 2));
-                let tcs = shaped_set(&mut rng, &letters, 4, 4);
-                let ctx = match rng.gen_range(0..7) {
+                let mut tcs = shaped_set(&mut rng, &letters, 4, 4);
+                let ranged = rng.gen_bool(0.12);
+                if ranged {
+                    // a unit of two or three symbols repeated n and n+1 times at the same position: the quantifier
+                    // {n,n+1} of a GROUP (its own rendering branch in verbose mode)
+                    let u: String = (0..rng.gen_range(2..=3)).map(|_| letters[rng.gen_range(0..letters.len())]).collect();
+                    let n = rng.gen_range(2..=3);
+                    let (pre, suf) = (["", "x"][rng.gen_range(0..2)], ["", "z", "zz"][rng.gen_range(0..3)]);
+                    tcs = vec![format!("{}{}{}", pre, u.repeat(n), suf), format!("{}{}{}", pre, u.repeat(n + 1), suf)];
+                    tcs.sort();
+                    tcs.dedup();
+                }
+                let ctx = match if ranged { 0 } else { rng.gen_range(0..7) } {
                     0 => base.with("rep", true),
                     1 => base.with("icase", true),
                     2 => base.with("word", true),
